@@ -1,5 +1,5 @@
 # C01 - memory safety / termination on arbitrary input: the buffer layer and the untrusted-input kernels
-CLAIMS = {'xmlbuffer': 'XMLBuffer append/set/ensureCapacity (with and without full handler / maximum size) from every valid state with capacity <= 5: index <= capacity <= block, content = kept + appended, refused requests throw and append nothing', 'getname': 'XMLReader::getName/getNCName from every valid buffer state at the end of an entity: invariant preserved, exact consumption',
+CLAIMS = {'strkernels': 'XMLString::patternMatch / trim / subString / indexOf(ch,from) / lastIndexOf(ch,from) / regionMatches on every text of <= N and pattern of <= 3 units, every index argument: result = specification, out-of-range refused, memory safe', 'xmlbuffer': 'XMLBuffer append/set/ensureCapacity (with and without full handler / maximum size) from every valid state with capacity <= 5: index <= capacity <= block, content = kept + appended, refused requests throw and append nothing', 'getname': 'XMLReader::getName/getNCName from every valid buffer state at the end of an entity: invariant preserved, exact consumption',
           'reader_chunks': 'refill layer + real UTF-8 decoder under every chunking: invariant and CBMC memory checks (shared with C04)',
           'utf8_decode / hexbin / dotdot / chardata': 'untrusted-input kernels: CBMC bounds/pointer checks for every input within the bound (shared with C05/C09/C20/C13)'}
 ASSUMPTIONS = ['hook: small reader window', 'stream at end of input for getname', 'XML 1.0 table, NEL off']
@@ -13,6 +13,9 @@ HARNESSES = [
       defs={'all': dict(D)}, unwind=3, unwind_gentle=True, unwind_cap=10, timeout={'quick': 700, 'thorough': 1700}),
  dict(name='xmlbuffer', entry='harness_xmlbuffer', srcs=['C01/xmlbuffer.cpp'], tus=['framework/XMLBuffer.cpp', 'util/XMLString.cpp'],
       cuts=['_ZN11xercesc_4_09XMLString9binToTextE*', '_ZN11xercesc_4_09XMLString10sizeToTextE*'], unwind=10, unwind_cap=40, timeout={'quick': 700, 'thorough': 1700}),
+ dict(name='strkernels', entry='harness_strkernels', srcs=['C01/strkernels.cpp'], tus=['util/XMLString.cpp', 'util/XMLChar.cpp'], const_tables=[T10, T11],
+      cuts=['_ZN11xercesc_4_09XMLString9binToTextE*', '_ZN11xercesc_4_09XMLString10sizeToTextE*'],
+      defs={'quick': {'N': 5}, 'thorough': {'N': 7}}, unwind='N+4', unwind_gentle=True, unwind_cap=40, timeout={'quick': 900, 'thorough': 2400}, mem_gb=16),
 ]
 LEVEL_TEXT = ('Bounded model checking, with CBMC bounds/pointer/overflow checks on every access of the real code, of the layers every input byte flows through and of the untrusted-input kernels: token scanning over the '
               'character window from ALL valid buffer states, the refill layer under all chunkings, decoders and lexical kernels on all inputs within the bound.')
